@@ -185,7 +185,7 @@ func (vm *vm) run() error {
 				b, a := pop().(int), pop().(string)
 				push(strings.Repeat(a, b))
 
-			case instr == opEQ:
+			case instr == opEQ && !(isBlock(peek(1)) && isBlock(peek(0))):
 				b, a := pop(), pop()
 				push(a == b)
 
